@@ -8,7 +8,10 @@
 (*   tag   data-source tag carried by the event (which stream it came from)   *)
 (*   kind  account event kind ("snapshot" | "order" | "balance" | "trade")    *)
 (*   k     the order (= dataset index it was opened on) the account event is  *)
-(*         about, 0 for the snapshot                                          *)
+(*         about, 0 for the snapshot (order responses carry the client order  *)
+(*         id, trades the exchange's order number; a balance snapshot does    *)
+(*         not say which order caused it: the j-th one is labelled with the   *)
+(*         j-th order, i.e. "no more balance snapshots than orders sent")     *)
 (*   sent  orders recorded in flight in the engine state BEFORE this event    *)
 (*   nc,na number of dataset items / account events the engine state has seen *)
 (*         AFTER this event                                                   *)
